@@ -21,6 +21,7 @@ func C08(c *Ctx) {
 	c.createFunctionShapeRule("C08-5", "variadic")
 	c.derefRule("C08-6")
 	c.genericShapesRule("C08-7", "receiver")
+	c.lateShapeRules("C08-8", "results")
 
 	r.Rule("C08-2", "legality: notation parser succeeds only if ¬(Reverse ∧ Style==return); CreateFunction only if ¬(Reverse ∧ 0<len(additional args)) ∧ ¬(Receiver≠\"\" ∧ source type external); parseMethod only with ≥1 parameter and ≥1 result")
 	if fn := c.notationParser(); fn != nil {
